@@ -58,5 +58,5 @@ package layout
 //@   flags readonly
 //@   ensures within_tolerance_of_first: r ==> len(group) >= 2 && forall k int :: {group[k]} 0 <= k && k < len(group) ==> abs(group[k].Y - group[0].Y) <= d.config.PositionTolerance && abs(group[k].X - group[0].X) <= d.config.XPositionTolerance
 //@   loop 0:
-//@     invariant refY == group[0].Y && refX == group[0].X && len(group) >= 2
+//@     invariant len(group) >= 2
 //@     invariant forall k int :: {group[k]} 1 <= k && k < $i + 1 ==> abs(group[k].Y - group[0].Y) <= d.config.PositionTolerance && abs(group[k].X - group[0].X) <= d.config.XPositionTolerance
